@@ -14,7 +14,10 @@ LEVEL = "exploration"
 RULE = ("Hypothesis: histories of 3-45 commands over 2-16 files (some not existing): :e f, :e! f, :e #, :e of an open path, :b n / + / - / % / # / ^, "
         ":b ! (delete), :b ~ (renumber), edits with unique tokens, line moves, :u, :w, and a final :q; after every step the :b listing (ids, aliases, "
         "paths, '*'), the current text and the current line are compared with a multi-buffer model (MRU table).  Non-trivial = >=3 buffers, >=1 "
-        "switch away from a dirty buffer and back, >=1 alias or +/- switch; distinct by SHA-1 of the case")
+        "switch away from a dirty buffer and back, >=1 alias or +/- switch; distinct by SHA-1 of the case.  A quarter of the cases are vi-mode histories "
+        "(shortcuts ^^ zj zk, per-buffer cursor column), another quarter split-window histories (^W s j k o c x, ^L, over files whose names an ex command "
+        "line would interpret and the unnamed buffer; invariant: no switch changes the text or dirty state of any buffer; non-trivial = a window switch "
+        "while a buffer is dirty)")
 ASSUMPTIONS = ["per-buffer text and current line are modelled with models/lined.py (only commands whose effect it models exactly are generated)",
                "at most 16 distinct paths (a 17th file silently replaces the least recently used buffer: outside the stated domain)"]
 
@@ -138,8 +141,39 @@ def vicase(draw):
     return {"kind": "vi", "files": files, "steps": steps}
 
 
+# ---- split windows (^W s j k o c x): a window switch is a buffer switch run by the editor itself ("ew! <path of the other window>"), also
+# on every full repaint of both windows.  The buffer order and the positions it leaves are not modelled; the invariant is the statement's:
+# no switch changes the text or the dirty state of any buffer.  Every edit is preceded by an explicit :e! <path>, so the buffer it lands in
+# is known whatever the windows did before.  Paths include ones an ex command line would interpret (space | " % # = +) and the unnamed buffer.
+WFILES = ["f0", "f1", "a b", "c|q!", "\"x", "g#h", "=e", "+k", "p%q"]
+WNOISE = ["\x17s", "\x17j", "\x17k", "\x17o", "\x17c", "\x17x", "\x17j", "\x17s", "\x0c", "\x1e", "zj", "zk", ":b 1\n", ":b 2\n", ":b 3\n", ":b +\n", ":b -\n", ":e #\n"]
+
+
+def wquote(path):
+    return "/" if path == "" else "".join(("\\" + ch) if ch in "\\|\"%#=+ \t" else ch for ch in path)
+
+
+@st.composite
+def wincase(draw):
+    names = ["f0"] + draw(st.lists(st.sampled_from(WFILES[1:]), min_size=1, max_size=3, unique=True))
+    files = {n: ["%s.%d" % (n[:1] if n[0].isalpha() else "o", i) for i in range(draw(st.integers(1, 4)))] for n in names}
+    unnamed = draw(st.booleans())
+    # (the unnamed buffer is only visited: a :w <file> typed in it would name it)
+    paths = names
+    steps = []
+    for i in range(draw(st.integers(4, 30))):
+        k = draw(st.integers(0, 9))
+        if k <= 3:
+            steps.append(["at", draw(st.sampled_from(paths)), draw(st.sampled_from(["app", "app", "pre", "del", "w", "none", "none"])), "t%d" % i])
+        elif k == 4:
+            steps.append(["noise", ":e %s\n" % wquote(draw(st.sampled_from(paths + [""])))])
+        else:
+            steps.append(["noise", draw(st.sampled_from(WNOISE))])
+    return {"kind": "win", "files": files, "unnamed": unnamed, "steps": steps}
+
+
 def strategy(tier):
-    return st.one_of(case(), case(), vicase())
+    return st.one_of(case(), case(), vicase(), wincase())
 
 
 class MBuf:
@@ -481,6 +515,99 @@ def run_vicase(env, c):
     return Outcome(True, nt, ["vi", "vi_nbuf_%d" % min(len(m.bufs), 5)] + [("vi_" + k) for k in ("back_to_dirty", "shortcut", "col") if info[k]])
 
 
+def run_wincase(env, c):
+    d = env.fresh()
+    for n, ls in c["files"].items():
+        runner.write_file(d, n, gen.to_bytes(ls))
+    disk = {n: list(ls) for n, ls in c["files"].items()}
+    bufs = {}           # path -> [lines, dirty] for every buffer that was entered explicitly; any other open buffer is clean = its file
+    keys = [":se noaw\n:se nowa\n:se noai\n"]
+    want = []
+    split = switched = False
+    dirty_at_switch = False
+    for i, s in enumerate(c["steps"]):
+        if s[0] == "noise":
+            keys.append(s[1] + "\x1b")
+            if s[1] == "\x17s":
+                split = True
+            elif s[1].startswith("\x17") and split:
+                switched = True
+                dirty_at_switch = dirty_at_switch or any(b[1] for b in bufs.values())
+            continue
+        p, op, tok = s[1], s[2], s[3]
+        b = bufs.setdefault(p, [list(disk.get(p, [])), False])
+        k = ":e! %s\n" % wquote(p)
+        if op == "del" and not b[0]:
+            op = "app"
+        if op in ("app", "pre") and not b[0]:
+            # (o / O in an empty buffer first make an empty line: i types the first line itself)
+            k += "i\x05" + tok + "\x1b"
+            b[0].append(tok)
+            b[1] = True
+        elif op == "app":
+            k += "Go\x05" + tok + "\x1b"
+            b[0].append(tok)
+            b[1] = True
+        elif op == "pre":
+            k += "1GO\x05" + tok + "\x1b"
+            b[0].insert(0, tok)
+            b[1] = True
+        elif op == "del":
+            k += "1Gdd"
+            del b[0][0]
+            b[1] = True
+        elif op == "w":
+            k += ":w\n"
+            disk[p] = list(b[0])
+            b[1] = False
+        keys.append(k + "\x1b:%%w! snap%d\n" % i)
+        want.append((i, p, list(b[0])))
+    allp = list(c["files"])
+    for j, p in enumerate(allp):
+        keys.append("\x1b:e! %s\n:%%w! dump%d\n" % (wquote(p), j))
+    keys.append("\x1b:q\n:%w! afterq\n")
+    r = runner.run_editor(env.paths["vi"], ["-v"] + ([] if c["unnamed"] else ["f0"]), "".join(keys).encode("utf-8") + runner.VI_TRAILER, d, rows=24, cols=100,
+                          want_stats=False)
+    if r.timeout:
+        return Outcome(True, False, ["win", "timeout"], inconclusive=True)
+    if r.crashed():
+        return Outcome(False, False, ["win", "crash"], detail={"why": "editor crashed", "sig": r.signature()})
+
+    def fail(why, **kw):
+        det = {"why": why, "steps": c["steps"], "files": c["files"], "unnamed": c["unnamed"]}
+        det.update(kw)
+        return Outcome(False, False, ["win"], detail=det)
+
+    def text(p):
+        return bufs[p][0] if p in bufs else disk.get(p, [])
+    for i, p, ls in want:
+        snap = runner.read_file(d, "snap%d" % i)
+        if (snap or b"") != gen.to_bytes(ls):
+            return fail("text of buffer %r after the edit of step %d differs from what was typed into it" % (p, i), step=i, got=snap, want=gen.to_bytes(ls))
+    for n in c["files"]:
+        if runner.read_file(d, n) != gen.to_bytes(disk[n]):
+            return fail("file %r on disk is not what :w last wrote from its buffer" % n, got=runner.read_file(d, n), want=gen.to_bytes(disk[n]))
+    extra = sorted(set(runner.list_files(d)) - set(c["files"]) - {"afterq"} - {"snap%d" % i for i in range(len(c["steps"]))} - {"dump%d" % j for j in range(len(allp))})
+    if extra:
+        return fail("a file that no command named appeared: %r" % extra[:3])
+    for j, p in enumerate(allp):
+        dump = runner.read_file(d, "dump%d" % j)
+        if (dump or b"") != gen.to_bytes(text(p)):
+            return fail("text of buffer %r at the end differs from what was typed into it" % p, got=dump, want=gen.to_bytes(text(p)))
+    dirty = [p for p in bufs if bufs[p][1]]
+    aq = runner.read_file(d, "afterq")
+    if not dirty and aq is not None:
+        return fail(":q refused although no buffer is modified", got=aq)
+    if dirty and aq is None and any(text(p) for p in dirty):
+        return fail(":q exited although buffer(s) %r are modified" % dirty)
+    if dirty and aq is not None and aq not in [gen.to_bytes(text(p)) for p in dirty]:
+        return fail(":q refused but the buffer it switched to is not a modified one", got=aq)
+    odd = any(n in c["files"] for n in WFILES[2:])
+    nt = split and switched and dirty_at_switch
+    return Outcome(True, nt, ["win"] + [k for k, v in (("win_split", split), ("win_switch", switched), ("win_dirty_switch", dirty_at_switch), ("win_odd_name", odd),
+                                                           ("win_unnamed", c["unnamed"])) if v])
+
+
 def cmd_text(s):
     k = s[0]
     if k == "e":
@@ -507,6 +634,8 @@ def cmd_text(s):
 
 
 def run_case(env, c):
+    if c.get("kind") == "win":
+        return run_wincase(env, c)
     if c.get("kind") == "vi":
         return run_vicase(env, c)
     d = env.fresh()
